@@ -34,4 +34,14 @@ for sid in sorted(res):
 lines += ["", f"**{det} of {tot} seeded changes are reported by at least one registered check.**", "",
           "Not reported: " + (", ".join(missed) if missed else "none")]
 open(os.path.join(ROOT, "selftest", "RESULTS.md"), "w").write("\n".join(lines) + "\n")
+# compact per-change summary (pasted into DESIGN.md 11.8)
+summ = ["| change | seeded for | reported by | not reported by |", "|---|---|---|---|"]
+for sid in sorted(res):
+    v = res[sid]
+    if "error" in v:
+        continue
+    yes = [p for p, c in sorted(v.get("checks", {}).items()) if c["exit"] == 1]
+    no = [p + ("" if c["exit"] == 0 else f" (exit {c['exit']})") for p, c in sorted(v.get("checks", {}).items()) if c["exit"] != 1]
+    summ.append(f"| {sid} | {v.get('property')} | {', '.join(yes) or '-'} | {', '.join(no) or '-'} |")
+open(os.path.join(ROOT, "selftest", "SUMMARY.md"), "w").write("\n".join(summ) + "\n")
 print(f"{det}/{tot} detected; missed: {missed}")
